@@ -4,13 +4,13 @@ import json
 import jsonschema
 
 TECH = ("deterministic simulation with fault injection: seeded search over generated worlds x session histories x "
-        "pool schedules x environments (hash seed, cpu count, memory, simulated wall clock, env flags, logger level) x "
+        "pool / thread schedules x environments (hash seed, cpu count, memory, simulated wall clock with backward jumps and simulated file times, env flags, logger level) x "
         "file faults, reference-model oracle, shrunk replay files")
 
 TRUST = ("trusted base: the reference models in sim/refmodel.py and sim/profiles/*.py, the trace-world generator's "
          "well-formedness guarantees, SimPool's model of multiprocessing.Pool / Manager (submission-order map results, "
          "first-arrived exception, chunking rule, queue operations linearised at the parent), CPython / pandas / networkx "
-         "themselves. Sampling, not enumeration; worker death is not simulated (the real pool hangs).")
+         "themselves. Sampling, not enumeration; worker death is not simulated (the real pool hangs). Threads (none on the unchanged tree) are real threads under a baton, pre-empted at lock operations and sampled source lines of hta, not at every bytecode.")
 
 CHECKS = {
     "C01": ("every row of every frame returned by every simulated load (parse-only, full, TraceAnalysis; dir / dict / list; pool on / off under a tape-driven schedule, pool size from cpu count and free memory; 1-3 interpreter lives with different hash seeds) is compared field by field with a reference loader over the bytes on disk: uniform shift, end == ts + dur, inward rounding, no spurious rows; under injected torn files / read errors (EIO and the transient errnos) / vanished / unreadable files / denied opens / refused process creation / flipped stored bytes / low memory a load may raise, but a load that returns - including the retry on the same object after a single-event fault - is held to the full oracle and a torn file must never appear as a frame",
@@ -23,13 +23,13 @@ CHECKS = {
             "DESIGN.md 6 C11", ""),
     "C09": ("histories on the user-visible mutable CPGraph: analysis, recompute, re-weight edges + recompute, deepcopy and continue on the copy, look at the original again; after every computation connectivity, maximal weight (independent topological DP), exact events / edges sets and the makespan bound are checked",
             "DESIGN.md 6 C09", " An analysis that raises or reports failure belongs to C08 (not claimed) and is counted, not evaluated."),
-    "C19": ("save / restore cycles of length 1-4 where each restore runs in the same session, in a new interpreter under the same zygote, or in a new interpreter under another PYTHONHASHSEED (another symbol numbering); absolute / relative / reused out_dir; ENOSPC / EIO / kill inside writes of save, EIO inside reads of restore, kill right after save, plus enumeration batches that put one fault at every write call / open / directory-entry operation of a save and every read call / open of a restore of a base plan (also with members of an earlier version left in the extraction directory), plus a double-fault batch (failed re-save, then a flipped stored byte in a member of the surviving archive); every attribute of the restored graph, the recomputed total, breakdown and summary must equal the original's",
+    "C19": ("save / restore cycles of length 1-4 where each restore runs in the same session, in a new interpreter under the same zygote, or in a new interpreter under another PYTHONHASHSEED (another symbol numbering); absolute / relative / reused out_dir; ENOSPC / EIO / kill inside writes of save, EIO inside reads of restore, kill right after save, plus enumeration batches that put one fault at every write call / open / directory-entry operation of a save and every read call / open of a restore of a base plan (also with members of an earlier version left in the extraction directory), plus a double-fault batch (failed re-save, then a flipped stored byte in a member of the surviving archive); every attribute of the restored graph, the recomputed total, breakdown and summary must equal the original's; file modification times and time.time follow the simulated clock (same-second re-saves, backward clock steps, lives days apart)",
             "DESIGN.md 6 C19", ""),
     "C13": ("session histories on the shared per-rank frame: CallGraph builds for one / all ranks, get_frequent_cuda_kernel_sequences, get_gpu_kernels_with_user_annotations, decode_symbol_ids and other getters in seeded order; after every build the eight stack columns are checked against the tree (parents of linked device activities, depth, height, kernel aggregates recomputed over descendants, backward-thread linking) and against the first build of the session (history independence); worlds cross the int8 / int16 widths (more than 127 events, operators with up to 300 kernels)",
             "DESIGN.md 6 C13", " The parent of a host event is taken from the tool (C03's subject)."),
     "C16": ("on the same histories every returned pattern table is recomputed from the tool's own tree for the same arguments (instances at the shallowest depth, kernels in start order, counts, CPU and GPU duration sums, row order) and the n-th call must equal the first call with the same arguments; ENOSPC / EIO inside the write of the overlay file",
             "DESIGN.md 6 C16", ""),
-    "C20": ("files written by the tool (trace with counters, critical-path overlay, write_trace / read_trace between formats, update_trace_rank) are read back with the tool's own reader and by a new session that discovers the directory under a seeded listdir order; prefix preservation of every source event, only permitted edits, counters / flow entries only appended, critical markers == critical events, flow pairs per drawn edge on the right pid/tid, rank discovery; write faults, denied opens, failing or interrupted directory-entry operations and kills (the process exits at the fault point) inside every writer, followed by a recovery session that redoes the work with another source",
+    "C20": ("files written by the tool (trace with counters, critical-path overlay, write_trace / read_trace between formats, update_trace_rank) are read back with the tool's own reader and by a new session that discovers the directory under a seeded listdir order; prefix preservation of every source event, only permitted edits, counters / flow entries only appended, critical markers == critical events, flow pairs per drawn edge on the right pid/tid, rank discovery; write faults, denied opens, failing or interrupted directory-entry operations and kills (the process exits at the fault point) inside every writer, followed by a recovery session that redoes the work with another source; the outside world replacing a source file while the session lives (modification time kept / older / simulated now), reload, write again",
             "DESIGN.md 6 C20", ""),
 }
 
@@ -71,7 +71,7 @@ def build(claimed):
                   "known_findings.txt as 'fixed:' entries with their /repo commits. Self-tests: python -m sim.cli selftest determinism|sensitivity."),
         "hooks": {
             "guard": "HTA_VERIF",
-            "enable": "no source hooks: every seam is a module attribute of a library (multiprocessing, os, shutil, builtins, io, json, tempfile, psutil, tracemalloc, threading, time) replaced by the harness inside the simulated session (DESIGN.md 4.2); the guard variable is reserved and unused",
+            "enable": "no source hooks: every seam is a module attribute of a library (multiprocessing, concurrent.futures, threading, queue, os, shutil, builtins, io, json, tempfile, psutil, tracemalloc, time) replaced by the harness - installed dormant by the zygote before hta is imported, activated inside the simulated session (DESIGN.md 4.2); the guard variable is reserved and unused",
             "baseline_off_cmd": "cd /repo && /venv/bin/python -m pytest -ra -q -p no:cacheprovider --timeout=900 --continue-on-collection-errors",
             "source_commits": [],
             "add_only": True,
